@@ -644,7 +644,7 @@ const fc_desc fc_bign[] = {
 	D("bignVerify", gen_Verify, call_Verify, bad_Verify, 0),
 	D("bignKeyWrap", gen_KeyWrap, call_KeyWrap, bad_KeyWrap, FC_SECRET),
 	D("bignKeyUnwrap", gen_KeyUnwrap, call_KeyUnwrap, bad_KeyUnwrap, FC_SECRET | FC_AUTH),
-	D("bignIdExtract", gen_IdExtract, call_IdExtract, bad_IdExtract, 0),
+	D("bignIdExtract", gen_IdExtract, call_IdExtract, bad_IdExtract, FC_KEYOUT),
 	D("bignIdSign", gen_IdSign, call_IdSign, bad_IdSign, FC_SECRET),
 	D("bignIdSign2", gen_IdSign2, call_IdSign2, bad_IdSign2, FC_SECRET),
 	D("bignIdVerify", gen_IdVerify, call_IdVerify, bad_IdVerify, 0),
